@@ -796,15 +796,29 @@ fn ls_schema_view(n: &Nlri) -> Nlri {
     }
 }
 
+/// known finding `rtc-value-not-a-route-target-api-form`: the eight octets of an RTC NLRI are shown through the typed RouteTarget
+/// message, which stands for transitive route targets only (type 0x00 / 0x01 / 0x02, sub-type 0x02)
+fn rtc_value_is_no_route_target(n: &Nlri) -> bool {
+    matches!(n, Nlri::Rtc(r) if matches!(r.match_type, packet::rtc::MatchType::ExactMatch { route_target, .. } if route_target[0] > 2 || route_target[1] != 2))
+}
+
 fn rt_nlri(n: &Nlri, family: Family) -> String {
     match catch_unwind(AssertUnwindSafe(|| net_from_api(nlri_to_api(n), family))) {
         Err(e) => format!("panic: {}", panic_msg(e)),
+        Ok(Err(_)) if rtc_value_is_no_route_target(n) => "known-rtc-value".into(),
         Ok(Err(_)) => "rejected".into(),
         Ok(Ok(m)) => {
             if &m == n {
                 "same".into()
             } else if matches!(n, Nlri::Ls(_)) && m == ls_schema_view(n) {
                 "known-ls-schema".into()
+            } else if matches!(n, Nlri::Rtc(r) if r.match_type == packet::rtc::MatchType::AsWildcard { origin_as: 0 })
+                && matches!(&m, Nlri::Rtc(r) if r.match_type == packet::rtc::MatchType::Wildcard)
+            {
+                // known finding `rtc-as0-api-form-ambiguous`: RouteTargetMembershipNlri{asn: 0, rt: none} stands for both
+                "known-rtc-as0".into()
+            } else if rtc_value_is_no_route_target(n) {
+                "known-rtc-value".into()
             } else {
                 "diff".into()
             }
